@@ -152,30 +152,33 @@ Proof.
   assert (Hfresh : let r := alloc u g g ODefault in
             lookup (cache u) g = None ->
             Inv (fst r) /\ ext u (fst r) /\ lookup (cache (fst r)) g = Some (snd r) /\ rcache (fst r) = rcache u).
-  { intros r0 Hnone. unfold r0, alloc. simpl. repeat split; simpl.
-    - (* inv_obj *)
-      intros id x Hg. unfold get in Hg. simpl in Hg. apply nth_error_snoc in Hg. destruct Hg as [Hg|[-> ->]].
-      + destruct (inv_obj _ HI id x Hg) as (A & B & C & D). repeat split; auto.
-        rewrite lookup_cset. destruct (term_eqb g (ogt x)) eqn:E; auto.
-        apply term_eqb_eq in E; subst g. congruence.
-      + simpl. repeat split; auto. rewrite lookup_cset, term_eqb_refl. reflexivity.
-    - (* inv_cache *)
-      intros k id Hl. rewrite lookup_cset in Hl. destruct (term_eqb g k) eqn:E.
-      + apply term_eqb_eq in E; subst k. inversion Hl; subst id. exists (mkObj g g ODefault). split; auto.
-        unfold get. simpl. rewrite nth_error_app2, Nat.sub_diag; auto.
-      + destruct (inv_cache _ HI k id Hl) as (x & Hx & Hgx). exists x. split; auto.
-        unfold get; simpl. apply get_app_old; auto.
-    - (* inv_rcache *)
-      intros k id Hl. apply (inv_rcache _ HI) in Hl. rewrite lookup_cset.
-      destruct (term_eqb g k) eqn:E; auto. apply term_eqb_eq in E; subst k. congruence.
-    - intros id x Hg. unfold get; simpl. apply get_app_old; auto.
-    - intros k id Hl. simpl. rewrite lookup_cset. destruct (term_eqb g k) eqn:E; auto.
-      apply term_eqb_eq in E; subst k. congruence.
-    - rewrite lookup_cset, term_eqb_refl. reflexivity. }
+  { intros r0 Hnone. unfold r0, alloc. simpl. split; [|split; [|split]]; simpl.
+    - constructor; simpl.
+      + (* inv_obj *)
+        intros id x Hg. unfold get in Hg. simpl in Hg. apply nth_error_snoc in Hg. destruct Hg as [Hg|[-> ->]].
+        * destruct (inv_obj _ HI id x Hg) as (A & B & C & D). split; [|split; [|split]]; auto.
+          rewrite lookup_cset. destruct (term_eqb g (ogt x)) eqn:E; auto.
+          apply term_eqb_eq in E; subst g. congruence.
+        * simpl. split; [|split; [|split]]; auto. rewrite lookup_cset, term_eqb_refl. reflexivity.
+      + (* inv_cache *)
+        intros k id Hl. rewrite lookup_cset in Hl. destruct (term_eqb g k) eqn:E.
+        * apply term_eqb_eq in E; subst k. inversion Hl; subst id. exists (mkObj g g ODefault). split; auto.
+          unfold get. simpl. rewrite nth_error_app2, Nat.sub_diag; auto.
+        * destruct (inv_cache _ HI k id Hl) as (x & Hx & Hgx). exists x. split; auto.
+          unfold get; simpl. apply get_app_old; auto.
+      + (* inv_rcache *)
+        intros k id Hl. apply (inv_rcache _ HI) in Hl. rewrite lookup_cset.
+        destruct (term_eqb g k) eqn:E; auto. apply term_eqb_eq in E; subst k. congruence.
+    - constructor; simpl.
+      + intros id x Hg. unfold get; simpl. apply get_app_old; auto.
+      + intros k id Hl. rewrite lookup_cset. destruct (term_eqb g k) eqn:E; auto.
+        apply term_eqb_eq in E; subst k. congruence.
+    - rewrite lookup_cset, term_eqb_refl. reflexivity.
+    - reflexivity. }
   rewrite (clean_not_fwd g Hc).
   destruct (lookup (cache u) g) as [id|] eqn:El.
   - destruct (inv_cache _ HI g id El) as (x & Hx & Hgx). rewrite Hx.
     destruct (inv_obj _ HI id x Hx) as (A & B & C & D).
-    rewrite A, Hgx, term_eqb_refl, B. simpl. repeat split; auto using ext_refl; apply HI.
+    rewrite A, Hgx, term_eqb_refl, B. simpl. split; [|split; [|split]]; auto using ext_refl.
   - apply Hfresh; auto.
 Qed.
